@@ -877,6 +877,22 @@ class ReductionBoundsReplacer(scalar_expr.IdentityMapper[[]]):
         return dataclasses.replace(expr, bounds=new_bounds)
 
 
+class ReductionVariableRenamer(scalar_expr.IdentityMapper[[]]):
+    """
+    Renames reduction variables in a (pytato) scalar expression.
+    """
+    def __init__(self, old_name_to_new_name: Mapping[str, str]):
+        super().__init__()
+        self.old_name_to_new_name: Mapping[str, str] = old_name_to_new_name
+
+    @override
+    def map_variable(self, expr: prim.Variable) -> Expression:
+        try:
+            return prim.Variable(self.old_name_to_new_name[expr.name])
+        except KeyError:
+            return expr
+
+
 class InlinedExpressionGenMapper(
             scalar_expr.IdentityMapper[
                 [PersistentExpressionContext, LocalExpressionContext]]):
@@ -959,12 +975,10 @@ class InlinedExpressionGenMapper(
         except KeyError as err:
             raise NotImplementedError(expr.op) from err
 
-        inner_expr = loopy_substitute(
-            expr.inner_expr,
-            {
-                var_name: prim.Variable(new_var_name)
-                for var_name, new_var_name in
-                local_ctx.var_to_reduction_unique_name.items()})
+        # expr.inner_expr is a pytato scalar expression (it may contain
+        # pytato's TypeCast), hence not loopy_substitute.
+        inner_expr = ReductionVariableRenamer(
+            local_ctx.var_to_reduction_unique_name)(expr.inner_expr)
 
         renamed_bounds = {
             local_ctx.var_to_reduction_unique_name[var_name]: bound_exprs
